@@ -1102,6 +1102,17 @@ func buildAnyCRLsWithCerts(
 				internalCRLConfig.LastModified = time.Now().UTC()
 			}
 
+			// Persist the advanced CRL number before a CRL is signed with the
+			// old one. If we fail or die between the two writes, a number is
+			// skipped (which is fine, see above); persisting it only after
+			// all CRLs were written let the next rebuild reuse the numbers of
+			// CRLs that had already been stored and served.
+			if representative != legacyBundleShimID {
+				if err := sc.setLocalCRLConfig(internalCRLConfig); err != nil {
+					return nil, fmt.Errorf("error building CRLs: unable to persist CRL number for issuer (%v): %w", representative, err)
+				}
+			}
+
 			// Lastly, build the CRL.
 			nextUpdate, err := buildCRL(sc, globalCRLConfig, forceNew, representative, revokedCerts, crlIdentifier, crlNumber, isDelta, lastCompleteNumber)
 			if err != nil {
